@@ -16,20 +16,37 @@ from pbt.core import clause, enum_clause, HarnessError
 PROPERTY = "C16"
 CLAUSES = []
 ASSUMPTIONS = [
-    "records: finite values with |v| <~ 1e15 (DESIGN: 0, +-tiny < 5e-7, +-O(1), +-1e6..1e15, integers), 1 <= n <= 400, passed as "
-    "float64 ndarray, int64 ndarray or list; dt in [1e-4, 100] (float, or int when integral)",
-    "labels: str of printable ASCII (0x20..0x7e, so no line breaks), at most 30 characters, including empty, leading/trailing "
-    "blanks, digits first, '#', ','",
-    "the format's own rounding is the model: value written with 6 decimals, dt with 4 decimals, each correctly rounded from the "
-    "exact binary value (computed here in rational arithmetic, cross-checked at import against C printf rounding); on an exact "
-    "decimal tie (v = odd/128, dt = odd/32) either neighbour is accepted and the case is counted as ambiguous",
-    "reading tolerance 1e-12 relative on values (after the factor m) and on dt: one decimal-to-binary conversion and one "
-    "multiplication cost <= 2 eps; a value that rounds to 0.000000 must load as exactly 0",
+    "records: finite values with |v| <~ 1e15 (DESIGN: 0, +-tiny < 5e-7, +-O(1), +-1e6..1e15, integers, format edge values and exact "
+    "decimal ties), passed as float64 ndarray, int64 ndarray, list or a strided / reversed / read-only view (save_values_and_dt "
+    "documents `values: array_like`); 1 <= n <= 400 in the Hypothesis clauses, 401 .. ~110 000 (thorough ~1 000 000) samples in the "
+    "deterministic enumeration `mid-range` and 2^k-1, 2^k, 2^k+1 in `block-lengths`, both with the same oracle (every value, dt, npts, "
+    "type, label, m) as the short records; dt in [1e-4, 100] (float, or int when integral: an int is acceptable wherever a float "
+    "is documented)",
+    "labels: 'labels with spaces' is read as plain printable labels: str of printable ASCII (0x20..0x7e, so no line breaks, no tab, no "
+    "non-ASCII), 0..200 characters, including empty, leading/trailing blanks, digits first, '#', ','.  'The same label' is read "
+    "literally (string equality, blanks at either end included: a label that comes back stripped is not the same label).  "
+    "Non-ASCII and tab labels are NOT generated (the quantifier does not name them)",
+    "load factor m: 'all ... m' - 1, -2.5, 1e-3, signed log-uniform [1e-3,1e3], +-2^k, small integers given as int, 0 (the loaded "
+    "record is then all zero) and 'not given'",
+    "paths: the loaders document `ffp: str, full file path`: absolute str paths inside the temporary directory with the extension "
+    ".txt, with another extension (.dat, two dots), without extension and with a blank and a '#' in the file name; the same str "
+    "is given to the saver and to every loader.  pathlib.Path objects and relative paths are not documented and not used",
+    "'the same to 6 / 4 decimals' is read literally: the loaded number is within half a unit of the 6th (4th) decimal of the "
+    "saved one (times |m|) plus 1e-12 relative (one decimal-to-binary conversion and one multiplication cost <= 2 eps), which the "
+    "format's own '%.6f' / '%.4f' rounding satisfies; a writer keeping more decimals, or rounding half-up instead of half-even, is "
+    "fine; a writer that truncates or keeps fewer decimals is not.  For short records (n <= 400) the correctly rounded value "
+    "(rational arithmetic, cross-checked at import against C printf rounding) is computed as well and accepted outright; on an "
+    "exact decimal tie (v = odd/128, dt = odd/32) either neighbour is accepted and the case is counted as ambiguous.  For long "
+    "records only the literal bound is evaluated (vectorised over the WHOLE record): it is implied by the rounding model",
     "load_signal is only asserted for the explicit requests astype='signal' / 'acc_sig' (its default 'sig' returns None; the "
     "statement speaks of the requested type); the label is only asserted when load_label=True",
-    "'Signal requested' is read as: an eqsig.Signal that is not an AccSignal; 'AccSignal requested' as isinstance AccSignal",
-    "'the same to 6 / 4 decimals' is read literally: the loaded number is within half a unit of the 6th (4th) decimal of the "
-    "saved one (times |m|), which the format's own '%.6f' / '%.4f' rounding satisfies; a writer keeping more decimals is fine",
+    "'Signal requested' is read as: an eqsig.Signal that is not an AccSignal; 'AccSignal requested' as isinstance AccSignal (the "
+    "statement names the two as different requested types: 'the requested object type (Signal or AccSignal)')",
+    "load_values_and_dt returns a pair (tuple or list) (values, dt); loaded values are a 1-d numeric array convertible to float",
+    "optional arguments are passed by keyword or positionally in the order of the pinned public signature (load_signal(ffp, astype), "
+    "load_sig(ffp, m), load_asig(ffp, load_label, m)): the signature is part of the public interface, as everywhere in this framework",
+    "objects handed to save_signal are fresh from the constructor or - history variant - constructed with another record and given "
+    "the record through reset_values before saving (the signal IS the object in its present state)",
     "files are written to a temporary directory created by the check process (tempfile.mkdtemp, honours TMPDIR; forked workers "
     "share it, file names carry the pid); every file is deleted after its case and the directory at interpreter exit; nothing "
     "is written under the code under test",
@@ -64,6 +81,21 @@ def _new_path():
     if _COUNT[0] % 3 == 0:
         return os.path.join(_BASE, "p%d_%d.txt" % (os.getpid(), _COUNT[0]))
     return os.path.join(_BASE, "p%d_reused_%d.txt" % (os.getpid(), _COUNT[0] % 3))
+
+
+PATH_FORMS = ["txt", "txt", "txt", "noext", "dat", "blank", "dots"]
+
+
+def _path(form):
+    """A str path of the given form (see ASSUMPTIONS); 'txt' keeps the overwrite-the-same-file behaviour of _new_path."""
+    if form in (None, "txt"):
+        return _new_path()
+    _COUNT[0] += 1
+    if not os.path.isdir(_BASE):
+        os.makedirs(_BASE, exist_ok=True)
+    stem = "q%d_%d" % (os.getpid(), _COUNT[0])
+    name = {"noext": stem, "dat": stem + ".dat", "blank": "my record #" + stem + ".txt", "dots": stem + ".v2.acc"}[form]
+    return os.path.join(_BASE, name)
 
 
 def _remove(path):
@@ -132,6 +164,17 @@ class _Model(object):
         self.seen = np.array([float(v) for v in seen], dtype=float)
 
 
+class _FastModel(object):
+    """Long records: only the literal bound is evaluated (vectorised); see ASSUMPTIONS."""
+    first = None
+    other = None
+    ties = 0
+
+    def __init__(self, seen):
+        self.seen = np.array(seen, dtype=float)
+        self.n = len(self.seen)
+
+
 # ---------------------------------------------------------------------------
 # generators
 
@@ -156,8 +199,9 @@ _DT_SPECIAL = [1.0, 1.5, 2.0, 10.0, 99.9999, 0.0001, 100.0, 0.99996, 0.99994, 99
 _DT_SUB1 = [d for d in gen.REPO_DTS if d < 1]
 _ASCII = st.characters(min_codepoint=0x20, max_codepoint=0x7e)
 _LABEL_SPECIAL = ["", "", "", " ", "m1", "a b", "1st record", "#1", "# commented", "a,b", "1,2,3", "12", "3 0.0100", "1.5",
-                  "  lead", "trail  ", " both ", "Kobe 1995 NS (g)", "x" * 30]
-_MS = st.one_of(st.sampled_from(M_SET), st.sampled_from(M_SET), st.none(), gen.scalars())
+                  "  lead", "trail  ", " both ", "Kobe 1995 NS (g)", "x" * 30, "station 12, channel HNE, 1999-09-20 Chi-Chi " * 3]
+_MS = st.one_of(st.sampled_from(M_SET), st.sampled_from(M_SET), st.none(), gen.scalars(),
+                st.sampled_from([0, 0.0, 2, -3, 10, 1]))
 _RECIPES = ["noise", "sines", "pulse", "step", "walk", "const", "quake"]
 
 
@@ -178,7 +222,10 @@ def _dts(draw):
 
 @st.composite
 def _labels(draw):
-    band = draw(st.integers(0, 9))
+    band = draw(st.integers(0, 10))
+    if band == 10:  # long labels (a header cut at 80 / 128 columns would lose them)
+        words = draw(st.lists(st.text(_ASCII, min_size=1, max_size=12), min_size=4, max_size=20))
+        return (" ".join(words) + " " + "Z" * 200)[:draw(st.integers(31, 200))]
     if band < 3:
         return draw(st.text(_ASCII, min_size=1, max_size=30))
     if band < 5:  # words separated by single blanks
@@ -196,8 +243,8 @@ def _labels(draw):
 @st.composite
 def _records(draw, min_n, max_n):
     band = draw(st.integers(0, 9))
-    if band < 5:
-        n = draw(st.integers(min_n, max(min_n, min(max_n, 40))))
+    if band < 4:
+        n = draw(st.integers(min_n, max(min_n, min(max_n, draw(st.sampled_from([12, 40, 40, 150]))))))
         spec = {"k": "mix", "v": draw(st.lists(_ELEM, min_size=n, max_size=n))}
         how = draw(st.sampled_from(["ndarray", "ndarray", "list", "int"]))
         if how != "ndarray":
@@ -216,6 +263,11 @@ def _cases(draw, min_n=2, max_n=400, objects=True):
     if objects:
         case["m"] = draw(_MS)
         case["saved_as"] = draw(st.sampled_from(["signal", "acc_sig"]))
+        if draw(st.integers(0, 3)) == 0:
+            case["via_reset"] = True
+    form = draw(st.sampled_from(PATH_FORMS))
+    if form != "txt":
+        case["path"] = form
     return case
 
 
@@ -268,9 +320,16 @@ def _classify(ctx, case, seen, model):
         ctx.cls("label-#")
     if "," in lab:
         ctx.cls("label-comma")
+    if len(lab) > 30:
+        ctx.cls("label-long")
+    ctx.cls("path=" + case.get("path", "txt"))
     if "m" in case:
         m = case["m"]
-        ctx.cls("m=default" if m is None else ("m=1" if m == 1 else ("m<0" if m < 0 else "m-other")))
+        ctx.cls("m=default" if m is None else ("m=1" if m == 1 else ("m<0" if m < 0 else ("m=0" if m == 0 else "m-other"))))
+        if isinstance(m, int):
+            ctx.cls("m-int")
+        if case.get("via_reset"):
+            ctx.cls("via-reset")
     if "saved_as" in case:
         ctx.cls("saved=" + case["saved_as"])
     # non-trivial: the value comparison is not 0 == 0
@@ -298,15 +357,19 @@ def _check_values(ctx, got, model, m, what):
     ctx.check(got.ndim == 1, "%s: loaded values have shape %s, expected a series of %d point(s)" % (
         what, got.shape, model.n))
     ctx.check(len(got) == model.n, "%s: %d points loaded, %d saved" % (what, len(got), model.n))
-    ctx.check(got.dtype.kind in "fiu", "%s: loaded values have dtype %s" % (what, got.dtype))
-    got = got.astype(float)
-    e1 = model.first * m
-    e2 = model.other * m
-    expect = np.where(np.abs(got - e2) < np.abs(got - e1), e2, e1)  # exact ties: the nearer of the two neighbours
+    try:
+        got = got.astype(float)
+    except (TypeError, ValueError):
+        ctx.fail("%s: loaded values (dtype %s) are not real numbers" % (what, got.dtype))
     # literal reading of "the same values to 6 decimals": within half a unit of the 6th decimal of the saved value
     # (times |m|); the format's own rounding (expect) always satisfies it
     exact = model.seen * m
-    tol = np.where(np.abs(got - expect) <= RTOL * np.abs(expect), np.inf, abs(m) * 0.5e-6 * (1 + 1e-9) + RTOL * np.abs(exact))
+    tol = abs(m) * 0.5e-6 * (1 + 1e-9) + RTOL * np.abs(exact)
+    if model.first is not None:
+        e1 = model.first * m
+        e2 = model.other * m
+        expect = np.where(np.abs(got - e2) < np.abs(got - e1), e2, e1)  # exact ties: the nearer of the two neighbours
+        tol = np.where(np.abs(got - expect) <= RTOL * np.abs(expect), np.inf, tol)
     ctx.close(got, exact, tol,
               "%s: loaded values vs saved values (to 6 decimals)%s" % (what, "" if m == 1 else " times m=%r" % m))
 
@@ -326,7 +389,7 @@ def _check_obj(ctx, obj, want, model, dt, m, what):
 
 def _array_level(ctx, path, model, dt, what="load_values_and_dt"):
     out = ctx.lib(eqsig.load_values_and_dt, path)
-    ctx.check(isinstance(out, tuple) and len(out) == 2, "%s did not return (values, dt)" % what)
+    ctx.check(isinstance(out, (tuple, list)) and len(out) == 2, "%s did not return (values, dt)" % what)
     _check_values(ctx, out[0], model, 1.0, what)
     _check_dt(ctx, out[1], dt, what)
 
@@ -358,7 +421,14 @@ def _object_level(ctx, path, model, dt, m, label):
 
 def _save_object(ctx, path, case, arg):
     cls = eqsig.Signal if case["saved_as"] == "signal" else eqsig.AccSignal
-    obj = ctx.lib(cls, arg, _dt_arg(case), label=case["label"])
+    if case.get("via_reset"):
+        # history variant: the object is built with another record (other length, other values) and then given the record
+        n0 = len(arg)
+        obj = ctx.lib(cls, np.linspace(-3.3, 7.7, n0 // 2 + 3), _dt_arg(case), label=case["label"])
+        ctx.lib(lambda: (obj.npts, obj.time[-1]))
+        ctx.lib(obj.reset_values, arg)
+    else:
+        obj = ctx.lib(cls, arg, _dt_arg(case), label=case["label"])
     ctx.lib(eqsig.save_signal, path, obj)
 
 
@@ -381,7 +451,7 @@ def values_and_dt(case, ctx):
     arg, seen = _build(case["rec"])
     model = _Model(seen)
     _classify(ctx, case, seen, model)
-    path = _new_path()
+    path = _path(case.get("path"))
     try:
         ctx.lib(eqsig.save_values_and_dt, path, arg, _dt_arg(case), case["label"])
         _array_level(ctx, path, model, case["dt"])
@@ -401,7 +471,7 @@ def signal_objects(case, ctx):
     arg, seen = _build(case["rec"])
     model = _Model(seen)
     _classify(ctx, case, seen, model)
-    path = _new_path()
+    path = _path(case.get("path"))
     try:
         _save_object(ctx, path, case, arg)
         _object_level(ctx, path, model, case["dt"], case["m"], case["label"])
@@ -421,7 +491,7 @@ def one_sample(case, ctx):
         raise HarnessError("one-sample clause drew %d points" % len(seen))
     model = _Model(seen)
     _classify(ctx, case, seen, model)
-    path = _new_path()
+    path = _path(case.get("path"))
     try:
         ctx.lib(eqsig.save_values_and_dt, path, arg, _dt_arg(case), case["label"])
         _array_level(ctx, path, model, case["dt"])
@@ -435,40 +505,195 @@ def one_sample(case, ctx):
 
 
 # ---------------------------------------------------------------------------
-# long records with lengths on and next to powers of two (block-wise writers / readers)
+# long records: the mid-range ladder (401 .. ~110 000 samples, thorough ~1e6) and lengths on / next to powers of two
+# (block-wise writers / readers), both with the full oracle of the short records
+
+import hashlib as _hashlib  # noqa: E402
+import math  # noqa: E402
+
+
+def _hu(*parts):
+    """Uniform number in [0, 1): hash of (VERIF_SEED, parts)."""
+    t = ":".join(str(p) for p in (gen.run_seed(), "c16") + parts)
+    return (int(_hashlib.blake2b(t.encode(), digest_size=8).hexdigest(), 16) % 10 ** 9) / 1e9
+
+
+def _hpick(seq, *parts):
+    return seq[min(len(seq) - 1, int(_hu(*parts) * len(seq)))]
+
+
+def _sd(*parts):
+    return int(_hu("seed", *parts) * (2 ** 31 - 1))
+
+
+def _long_values(n, seed, kind, amp):
+    """Record of a long case (pure function of its arguments).  Ordinary data (noise x rising envelope + offset: every stretch
+    differs, all six decimals populated) or the element-wise class mix of the short records (tiny, large, integers, zeros, format
+    edge values / exact ties sprinkled over it); first and last sample non-zero and unlike their neighbours."""
+    rs = np.random.RandomState(int(seed))
+    t = np.arange(n, dtype=float) / n
+    v = rs.standard_normal(n) * (0.6 + 0.8 * t) * float(amp) + 0.11 * float(amp)
+    if kind == "mix":
+        u = rs.random_sample(n)
+        sg = np.where(rs.random_sample(n) < 0.5, -1.0, 1.0)
+        v = np.where(u < 0.10, sg * 10.0 ** rs.uniform(-12.0, math.log10(4.99e-7), n), v)
+        v = np.where((u >= 0.10) & (u < 0.20), sg * 10.0 ** rs.uniform(6.0, 15.0, n), v)
+        v = np.where((u >= 0.20) & (u < 0.30), rs.randint(-10 ** 6, 10 ** 6, n).astype(float), v)
+        v = np.where((u >= 0.30) & (u < 0.34), sg * 0.0, v)
+        v = np.where((u >= 0.34) & (u < 0.38), np.array(_EDGE)[rs.randint(0, len(_EDGE), n)], v)
+    elif kind != "ordinary":
+        raise ValueError(kind)
+    v[0] = 0.654321 * float(amp)
+    v[-1] = -1.234567 * float(amp)
+    return v
+
+
+def _long_label(case):
+    k = case["label_kind"]
+    if k == "special":
+        return _LABEL_SPECIAL[int(case["label_i"]) % len(_LABEL_SPECIAL)]
+    rs = np.random.RandomState(int(case["seed"]) ^ 0x5A5A)
+    n = int(case["label_len"])
+    chars = rs.randint(0x21, 0x7f, n)
+    chars[rs.random_sample(n) < 0.15] = 0x20  # words
+    return "".join(chr(c) for c in chars)
+
+
+def _round_sizes(lo, hi, tag):
+    """Lengths people actually have: one per octave, rounded to one or two significant digits (1000, 2500, 16000 ...), plus the
+    exact 2nd and 3rd multiples of the integer literals mined from the source under test (a writer working in blocks of c)."""
+    out = set()
+    k = 0
+    a = lo
+    while a < hi:
+        b = min(hi, 2 * a)
+        v = int(math.exp(math.log(a) + (math.log(b) - math.log(a)) * _hu("round", tag, k)))
+        mag = 10 ** (len(str(v)) - (1 if k % 2 == 0 else 2))
+        r = max(mag, int(round(v / mag)) * mag)
+        if lo <= r <= hi:
+            out.add(r)
+        a = b
+        k += 1
+    mult = sorted({q * c for c in gen.mined_ints(64, hi) for q in (2, 3) if lo <= q * c <= hi})
+    if len(mult) > 6:
+        mult = sorted(mult, key=lambda c: _hu("mult", tag, c))[:6]
+    return out | set(mult)
+
+
+def _long_sizes(tier):
+    if tier == "quick":
+        top = int(100000 * (1 + 0.1 * _hu("top")))  # anchor just above the nominal end of the range
+        return sorted(set(gen.size_ladder(401, 100000, 14, "c16:n")) | _round_sizes(401, 100000, "q") | {top})
+    top = int(1000000 * (1 + 0.05 * _hu("top:t")))
+    return sorted(set(gen.size_ladder(401, 1000000, 34, "c16:n:t", mined_limit=16)) | set(gen.ladder(401, 100000, 14, "c16:n"))
+                  | _round_sizes(401, 1000000, "t") | _round_sizes(401, 100000, "q") | {top})
+
+
+_LONG_M = [None, 1.0, -2.5, 1e-3, 0, 2, -3, 9.81, -0.0625, 386.0886]
+_LONG_DT = [0.01, 0.005, 0.02, 0.0025, 0.004, 0.001, 0.1, 1.0, 1.5, 2, 10, 12.3456, 99.9999, 100, 0.0001, 0.99996]
+
+
+def _long_case(n, i, tag):
+    c = {"n": int(n), "seed": _sd(tag, i), "kind": _hpick(["ordinary", "mix", "mix"], tag, "kind", i),
+         "amp": _hpick([1.0, 1.0, 0.01, 37.5, 2500.0], tag, "amp", i),
+         "as": _hpick(["ndarray", "ndarray", "list", "int", "view", "readonly"], tag, "as", i),
+         "dt": _hpick(_LONG_DT, tag, "dt", i), "m": _hpick(_LONG_M, tag, "m", i),
+         "saved_as": _hpick(["values", "signal", "acc_sig"], tag, "sv", i), "via_reset": _hu(tag, "vr", i) < 0.35,
+         "path": _hpick(PATH_FORMS, tag, "path", i)}
+    if _hu(tag, "lab", i) < 0.5:
+        c.update(label_kind="special", label_i=int(1000 * _hu(tag, "labi", i)))
+    else:
+        c.update(label_kind="random", label_len=_hpick(gen.ladder(3, 300, 8, "c16:lab:%s:%d" % (tag, i)), tag, "labl", i))
+    return c
+
+
+def _mid_enum(tier, shard, nshards):
+    for i, n in enumerate(_long_sizes(tier)):
+        if i % nshards == shard:
+            yield _long_case(n, i, "mid")
 
 
 def _block_enum(tier, shard, nshards):
-    ks = (12, 13, 14, 15) if tier == "quick" else (10, 11, 12, 13, 14, 15, 16, 17)
-    i = 0
-    for k in ks:
-        for j in (-1, 0, 1):
-            if i % nshards == shard:
-                yield {"n": 2 ** k + j, "seed": 100 + i, "dt": [0.01, 0.005, 1.5][i % 3]}
-            i += 1
-    for n in (3 * 2 ** 14, 5 * 2 ** 13, 40000) if tier == "thorough" else (3 * 2 ** 13,):
+    ks = (9, 10, 11, 12, 13, 14, 15, 16) if tier == "quick" else (9, 10, 11, 12, 13, 14, 15, 16, 17, 18)
+    sizes = [2 ** k + j for k in ks for j in (-1, 0, 1)]
+    sizes += [3 * 2 ** 13, 3 * 2 ** 10] if tier == "quick" else [3 * 2 ** 14, 5 * 2 ** 13, 3 * 2 ** 13, 3 * 2 ** 10, 40000]
+    for i, n in enumerate(sizes):
         if i % nshards == shard:
-            yield {"n": n, "seed": 100 + i, "dt": 0.02}
-        i += 1
+            yield _long_case(n, i, "blk")
+
+
+def _long_check(case, ctx):
+    n = int(case["n"])
+    v = _long_values(n, case["seed"], case["kind"], case["amp"])
+    spec = {"as": case["as"]} if case["as"] != "ndarray" else {}
+    arg = gen.as_container(spec, v)
+    seen = np.array(arg, dtype=float)
+    model = _FastModel(seen)
+    label = _long_label(case)
+    dt, m = case["dt"], case["m"]
+    mag = np.abs(seen)
+    ctx.cls("kind=" + case["kind"], "as=" + case["as"], "saved=" + case["saved_as"], gen.size_class(n), "path=" + case["path"],
+            "dt>=1" if dt >= 1 else "dt<1", "dt-int" if isinstance(dt, int) else None,
+            "m=default" if m is None else ("m=0" if m == 0 else ("m<0" if m < 0 else "m>0")), "m-int" if isinstance(m, int) else None,
+            "label-long" if len(label) > 30 else None, "label-space" if " " in label else None,
+            "tiny" if np.any((mag > 0) & (mag < 5e-7)) else None, "big" if np.any(mag >= 1e6) else None,
+            "via-reset" if case["via_reset"] and case["saved_as"] != "values" else None)
+    ctx.nt(True)
+    path = _path(case["path"])
+    try:
+        if case["saved_as"] == "values":
+            ctx.lib(eqsig.save_values_and_dt, path, arg, dt, label)
+        else:
+            _save_object(ctx, path, {"saved_as": case["saved_as"], "via_reset": case["via_reset"], "dt": dt,
+                                     "dt_int": isinstance(dt, int), "label": label}, arg)
+        _array_level(ctx, path, model, dt)
+        if n <= 150000:
+            _object_level(ctx, path, model, dt, m, label)
+        else:
+            # very long records (thorough): two hash-chosen object-level entry points instead of all six reads
+            mm = 1.0 if m is None else m
+            kw = {} if m is None else {"m": m}
+            which = _hpick(["sig+asig", "asig+signal", "sig+acc"], "which", case["seed"])
+            if "sig+" in which:
+                _check_obj(ctx, ctx.lib(eqsig.load_sig, path, **kw), "signal", model, dt, mm, "load_sig")
+            if "asig" in which:
+                asig = ctx.lib(eqsig.load_asig, path, load_label=True, **kw)
+                _check_obj(ctx, asig, "acc_sig", model, dt, mm, "load_asig(load_label=True)")
+                ctx.check(asig.label == label, "load_asig(load_label=True): label %r was loaded back as %r" % (label, asig.label))
+            if "signal" in which:
+                _check_obj(ctx, ctx.lib(eqsig.load_signal, path, astype="signal"), "signal", model, dt, 1.0, "load_signal(astype='signal')")
+            if "acc" in which:
+                _check_obj(ctx, ctx.lib(eqsig.load_signal, path, astype="acc_sig"), "acc_sig", model, dt, 1.0, "load_signal(astype='acc_sig')")
+    finally:
+        _remove(path)
+        if not path.endswith(".txt"):  # a writer that appends an extension of its own
+            _remove(path + ".txt")
+
+
+_LONG_ORACLE = ("round trip save_values_and_dt | save_signal(Signal | AccSignal, fresh or after reset_values) -> load_values_and_dt, "
+                "load_signal('signal'|'acc_sig'), load_sig(m), load_asig(load_label, m): requested type, npts, dt to 4 decimals, EVERY value "
+                "within 0.5e-6*|m| + 1e-12*|v m| of v*m (vectorised over the whole record), label equal when requested")
+
+
+@enum_clause(CLAUSES, "mid-range", _mid_enum,
+             rule="record lengths gen.size_ladder(401, 100000, 14) + one 'round' length per octave (1000, 2500, 16000 ...) + 2nd / 3rd multiples "
+                  "of the integer literals of the source + an anchor just above 100000 (thorough: to 1 000 000, 34 + 14 rungs); ordinary "
+                  "(noise x envelope + offset, amplitudes 0.01 .. 2500) or the class mix (tiny, +-1e6..1e15, integers, zeros, format edge values "
+                  "and exact ties sprinkled in); ndarray / list / int64 / strided / read-only; dt from 16 values incl. >= 1 s and int; m from "
+                  "{not given, 1, -2.5, 1e-3, 0, 2, -3, 9.81, -1/16, 386.0886}; labels special or random printable of laddered length 3..300; "
+                  "five path forms; by hash of (VERIF_SEED, index)",
+             oracle=_LONG_ORACLE,
+             exhaustive_note="deterministic size ladder: one record length per logarithmic bin of [401, 100000] (thorough [401, 1000000]), per "
+                             "octave one round length, per mined literal its neighbours and 2nd / 3rd multiples",
+             require={"kind=mix": 0.3, "n>50000": 0.05}, min_nontrivial=0.9, quick_shards=4)
+def mid_range(case, ctx):
+    _long_check(case, ctx)
 
 
 @enum_clause(CLAUSES, "block-lengths", _block_enum,
-             rule="records of 2^k-1, 2^k, 2^k+1 samples, k = 12..15 (thorough 10..17) and a few multiples of 2^13 / 2^14: save_values_and_dt -> load_values_and_dt",
-             oracle="round trip against the rational model of the format's rounding (same n, dt, values)",
+             rule="records of 2^k-1, 2^k, 2^k+1 samples, k = 9..16 (thorough 9..18) and a few multiples of 2^10 / 2^13 / 2^14; every other "
+                  "parameter as in `mid-range`",
+             oracle=_LONG_ORACLE,
              exhaustive_note="the listed lengths", quick_shards=4)
 def block_lengths(case, ctx):
-    n = case["n"]
-    seen = np.round(np.random.RandomState(case["seed"]).standard_normal(n) * 3.0, 4)
-    ctx.nt(True)
-    path = _new_path()
-    try:
-        ctx.lib(eqsig.save_values_and_dt, path, seen, case["dt"], "block %d" % n)
-        vals, dt = ctx.lib(eqsig.load_values_and_dt, path)
-        vals = np.asarray(vals)
-        ctx.check(vals.ndim == 1 and len(vals) == n, "%d points saved, loaded shape %s" % (n, vals.shape))
-        _check_dt(ctx, dt, case["dt"], "load_values_and_dt (n=%d)" % n)
-        ctx.close(vals, seen, 0.5e-6 * (1 + 1e-9) + 1e-12 * np.abs(seen), "loaded values vs saved values (n=%d)" % n)
-        sig = ctx.lib(eqsig.load_signal, path, astype="acc_sig")
-        ctx.check(sig.npts == n, "load_signal: npts %r for %d saved points" % (sig.npts, n))
-    finally:
-        _remove(path)
+    _long_check(case, ctx)
